@@ -47,6 +47,10 @@ From Coq Require Import List Bool Arith Lia.
 Import ListNotations.
 From Omega Require Import L4.Arena L4.Kleene L4.Tables.
 From OmegaGen Require Import FixpointGen Gr1Gen TransducerGen.
+From Coq Require Import ZArith.
+From Coq Require String.
+From OmegaGen Require BitsGen.
+From OmegaGP Require Import CounterWidth.
 From OmegaGP Require Import TransducerModel TransducerBridge StreettTProofs RabinTProofs
   RabinTProofs2 StreettNB2 StreettClosure1 RabinClosure2 RabinLive2.
 Local Open Scope bool_scope.
@@ -68,6 +72,21 @@ Proof.
   exact (rabin_generated_some nc nx ny E S EI SI holds goals moore plus_one qinit H G
            fuel zk yki xkijr a i).
 Qed.
+
+(* The two memory variables are declared with the ranges 0 .. (number of
+   persistence sets) ("none" is the last value) and 0 .. (number of goals - 1);
+   through the TRANSLATED width computation of the declaration code (C18)
+   their bit fields hold every value the construction uses. *)
+Theorem C05_memory_fields_fit : forall holds goals : list bdd,
+  1 <= length holds -> 1 <= length goals ->
+  forall name lo hi,
+  In (name, lo, hi) (RabinGen.make_rabin_transducer_declares holds goals) ->
+  lo = 0 /\
+  exists h, BitsGen.declared_hint 0 (Z.of_nat hi) = Some h /\ Bits.h_signed h = false /\
+    BitsGen.bitfield_limits h = Some (0, 2 ^ Bits.h_width h - 1)%Z /\
+    (name = name_hold -> length holds + 1 <= Z.to_nat (2 ^ Bits.h_width h)) /\
+    (name = name_goal -> length goals <= Z.to_nat (2 ^ Bits.h_width h)).
+Proof. exact rabin_memory_fits. Qed.
 
 Section C05.
 Variables nc nx ny H G : nat.
@@ -267,6 +286,7 @@ Proof. vm_compute. repeat split; repeat constructor. Qed.
 End Refuted_stale_hold.
 
 Print Assumptions C05_construction_is_translated.
+Print Assumptions C05_memory_fields_fit.
 Print Assumptions C05_refines_component_action.
 Print Assumptions C05_moore_independent_of_next_env.
 Print Assumptions C05_memory_in_range.
